@@ -41,18 +41,19 @@ type RTA struct {
 	flags  []flagCond
 	noDesc func(*ssa.Function) bool // functions whose bodies are not traversed (sinks)
 
-	reach    map[*ssa.Function]*rtaEdge // first (BFS) edge by which a function was reached; root: edge with caller nil
-	order    []*ssa.Function
-	work     []*ssa.Function
-	addrSig  typeutil.Map // signature -> []*ssa.Function (address taken in reachable code)
-	dynSites typeutil.Map // signature -> []*dynSite
-	live     typeutil.Map // concrete type -> true
-	liveList []types.Type
-	invokes  []*invSite
-	edges    map[*ssa.Function][]*rtaEdge // all out edges
-	pruned   int                          // number of blocks pruned by flags
-	dynCalls int
-	invCalls int
+	reach     map[*ssa.Function]*rtaEdge // first (BFS) edge by which a function was reached; root: edge with caller nil
+	order     []*ssa.Function
+	work      []*ssa.Function
+	addrSig   typeutil.Map // signature -> []*ssa.Function (address taken in reachable code)
+	dynSites  typeutil.Map // signature -> []*dynSite
+	live      typeutil.Map // concrete type -> true
+	liveList  []types.Type
+	invokes   []*invSite
+	edges     map[*ssa.Function][]*rtaEdge // all out edges
+	pruned    int                          // number of blocks pruned by flags
+	liveCache map[*ssa.Function]map[*ssa.BasicBlock]bool
+	dynCalls  int
+	invCalls  int
 }
 
 type dynSite struct {
@@ -101,7 +102,14 @@ func (r *RTA) run() {
 // liveBlocks computes the blocks of f reachable from the entry when edges
 // contradicted by the configuration flags are removed.
 func (r *RTA) liveBlocks(f *ssa.Function) map[*ssa.BasicBlock]bool {
+	if r.liveCache == nil {
+		r.liveCache = map[*ssa.Function]map[*ssa.BasicBlock]bool{}
+	}
+	if l, ok := r.liveCache[f]; ok {
+		return l
+	}
 	live := map[*ssa.BasicBlock]bool{}
+	r.liveCache[f] = live
 	if len(f.Blocks) == 0 {
 		return live
 	}
